@@ -89,7 +89,8 @@ class Context(dawgie.pl.worker.Context):
 
 class E2EWorld(World):
     def __init__(self, desc, targets, dbdir):
-        desc = dict(desc, cache_refs=True)
+        # half of the histories run engines whose bots are dawgie.base objects (the current API), half the deprecated subclasses
+        desc = dict(desc, cache_refs=True, **({'style': 'base'} if getattr(self, 'new_style', False) else {}))
         for d in ('db', 'dbs', 'stg'):
             shutil.rmtree(os.path.join(dbdir, d), True)
             os.makedirs(os.path.join(dbdir, d))
@@ -188,6 +189,7 @@ def obs0():
 def run_job(job, dbdir):
     dawgie.db.util.subprocess = _REAL_SUBPROCESS if job.get('real_digest') else _STUB_SUBPROCESS
     E2EWorld.save_twice = int(job['id']) % 2 == 1  # every other history: some algorithms save twice per run
+    E2EWorld.new_style = (int(job['id']) // 2) % 2 == 1
     w = E2EWorld(job['desc'], job['targets'], dbdir)
     steps = []
     try:
